@@ -125,6 +125,18 @@ def boundary_histories(rng, scheds, quick, first_obj):
     return jobs
 
 
+def slow_consumer_histories(first_obj):
+    """IterateBytes drained slowly: one long pause, and many short ones (together longer than any plausible idle timer)"""
+    jobs = []
+    for k, arg in enumerate(([2300], [0, 60, 45])):
+        obj = first_obj + k
+        jobs.append(dict(op="bl", obj=obj, call="New", a=[0], full=False, hist=obj))
+        jobs.append(dict(op="bl", obj=obj, call="AddByteN", a=[0xA5, 130], full=False, hist=obj))
+        jobs.append(dict(op="bl", obj=obj, call="AddBits", a=[5, 3], full=False, hist=obj))
+        jobs.append(dict(op="bl", obj=obj, call="IterateBytes", a=arg, full=False, hist=obj))
+    return jobs
+
+
 def key_of(ev, why):
     return "bitlist call=%s why=%s" % (ev.get("call"), why)
 
@@ -149,7 +161,7 @@ def run(tier):
         target = [5000, 40000, 70000, 140000][h % 4] if not quick else [3000, 9000, 40000, 140000][h % 4]
         jobs += random_history(chk.rng, 100000 + h, 120 if quick else 250, target)
     scheds = growth_schedules(chk)
-    bj = boundary_histories(chk.rng, scheds, quick, 200000)
+    bj = boundary_histories(chk.rng, scheds, quick, 200000) + slow_consumer_histories(900000)
     jobs += bj
     chk.cov["growth_boundary_histories"] = len({j["hist"] for j in bj})
     evs = vlib.run_drive(drive, jobs, chk.work)
